@@ -184,7 +184,10 @@ func (g *G) Expr(t string, d int) string {
 		case 1:
 			return fmt.Sprintf("map(%s, {%s})", g.Expr("ints", d-1), g.closure(g.pick("int", "bool", "string", "float"), "int", d-1))
 		case 2:
-			return "[]"
+			if g.NoCalls {
+				return "[]"
+			}
+			return g.pick("[]", fmt.Sprintf("List(%s, %s)", g.Expr("int", d-1), g.Expr(g.pick("string", "int", "bool"), d-1)), fmt.Sprintf("List(%s)", g.Expr("int", d-1)))
 		case 3:
 			return fmt.Sprintf("[%s, {a: %s, \"b\": %s, (%s): 1}]", g.Expr("float", d-1), g.Expr("int", d-1), g.Expr("ints", d-1), g.Expr("string", d-1))
 		default:
@@ -204,6 +207,9 @@ func (g *G) Expr(t string, d int) string {
 		case 3:
 			return fmt.Sprintf("{a: %s, b: %s}", g.Expr("int", d-1), g.Expr("string", d-1))
 		case 4:
+			if !g.NoCalls && g.r.Intn(2) == 0 {
+				return fmt.Sprintf("List(%s, %s)[%s]", g.Expr("int", d-1), g.Expr("int", d-1), g.pick("0", "1"))
+			}
 			return fmt.Sprintf("%s[%s]", g.Expr("anys", d-1), g.Expr("int", d-1))
 		case 5:
 			if g.NoCalls {
